@@ -157,3 +157,33 @@ Proof.
   apply andb_true_iff in S as [S _]. apply andb_true_iff in S as [S T]. apply negb_true_iff in T.
   boolnat S. rewrite !sat_min in S. unfold n_hand. split; [|split; [|split]]; try exact T; lia.
 Qed.
+
+(* the same facts in the form of the oracle clauses that the harness evaluates
+   on the traces of the real code *)
+Theorem model_clauses sc sched s tr :
+  NoDup (delivered sc) -> run (init sc) sched = (s, tr) ->
+  let dl := delivered sc in let q := quiescent s in let ems := emissions tr in
+  ok_announced dl q ems = true /\ ok_handed_on dl q ems = true /\ ok_unscheduled dl q ems = true /\
+  ok_not_both dl ems = true.
+Proof.
+  intros ND HR dl q ems.
+  assert (P : forall u, In u dl ->
+     (Nat.leb (n_adv SExecuting u ems) 1 && (negb q || Nat.eqb (n_adv SExecuting u ems) 1
+        || Nat.eqb (n_adv SExecuting u ems) 0 && Nat.eqb (n_adv SCanceled u ems) 1)) = true /\
+     once q (n_hand u ems) = true /\ once q (n_uns u ems) = true /\
+     negb (Nat.ltb 0 (n_collected u ems) && Nat.ltb 0 (n_canceled u ems)) = true).
+  { intros u HI. destruct (at_most_once _ _ _ _ _ ND HI HR) as (A1 & A2 & A3 & A4 & _). fold ems in A1, A2, A3, A4.
+    assert (B4 : negb (Nat.ltb 0 (n_collected u ems) && Nat.ltb 0 (n_canceled u ems)) = true).
+    { apply negb_true_iff. apply andb_false_iff.
+      destruct (Nat.ltb 0 (n_collected u ems)) eqn:E1; [|left; reflexivity].
+      destruct (Nat.ltb 0 (n_canceled u ems)) eqn:E2; [|right; reflexivity].
+      exfalso. apply A4. apply Nat.ltb_lt in E1. apply Nat.ltb_lt in E2. split; assumption. }
+    unfold once. destruct q eqn:Q.
+    - destruct (exactly_once _ _ _ _ _ ND HI HR Q) as (E1 & E2 & E3 & _). fold ems in E1, E2, E3.
+      rewrite E2, E3. cbn [negb orb Nat.eqb]. repeat split; try assumption.
+      apply andb_true_iff. split; [apply Nat.leb_le; exact A1|].
+      destruct E1 as [[a b]|[a b]]; rewrite a, b; reflexivity.
+    - cbn [negb orb]. rewrite andb_true_r. repeat split; try assumption; apply Nat.leb_le; assumption. }
+  unfold ok_announced, ok_handed_on, ok_unscheduled, ok_not_both. rewrite !forallb_forall.
+  repeat split; intros u HI; destruct (P u HI) as (P1 & P2 & P3 & P4); assumption.
+Qed.
